@@ -524,9 +524,10 @@ add_constructor('!rec:', _rec_constructor_md)
 def _node_representer(dumper, node):
     from .nodes.bind import BindNode
     tag, metadata, data = node.ayns.represent()
+    is_null = False
     if data is None:
         assert not tag
-        tag = '!null'
+        is_null = True
 
     parent_metadata = dumper.metadata[-1] if dumper.metadata else {}
     type_defaults = node.ayns.get_default_mode()
@@ -584,8 +585,16 @@ def _node_representer(dumper, node):
             tag = maybe_tag[metadata[key]]
             del metadata[key]
 
+    if is_null:
+        # explicit nulls are written as value-less nodes, which need a tag to be told apart from an implicit null
+        if not tag or metadata:
+            tag = '!null'
+        elif tag != '!null':
+            # a single flag was turned into its simple tag (e.g. !del): a value-less node with that tag is parsed as an explicit null again
+            pass
+
     if metadata:
-        if tag is None:
+        if not tag:
             tag = '!metadata'
 
         tag += ':' + _encode_metadata(metadata)
@@ -619,9 +628,8 @@ def _node_representer(dumper, node):
             from .nodes.scalar import ConfigScalar
             if tag:
                 if data is None:
-                    assert tag.startswith('!null')
                     with dumper.force_unquoted():
-                        return dumper.represent_scalar('!null', '', style='')
+                        return dumper.represent_scalar(tag, '', style='')
                 with dumper.force_unquoted():
                     if isinstance(data, ConfigScalar):
                         return dumper.represent_scalar(tag, repr(data._dyn_base(data)))
